@@ -162,4 +162,35 @@ def run(model, tier):
     c03_mader.check(model, res)
     from . import c03_radshock
     c03_radshock.wrappers(model, res)
+    blackbox_eos(model, res)
     return res
+
+
+def blackbox_eos(model, res):
+    """Black-box Noh: the thermodynamic fields returned together are linked by the user's EOS object by construction --
+    behind the shock the closed field is eos.P / eos.e of the two Newton unknowns, ahead of it the energy is
+    eos.e(rho_0, P_0).  These are the EOS obligations of the returned-states rule of C02 (c02_blackbox.fields, every way
+    of calling the constructor); the jump-condition obligations of that rule stay with C02."""
+    from . import c02_blackbox
+    class _All(Result):
+        def sample(self, sm, limit=16):
+            self.samples.append(sm)
+    tmp = _All(PROP)
+    c02_blackbox.fields(model, tmp, prop=PROP, rule='C03.blackbox-eos')
+
+    def mine(text):
+        return ('through the EOS' in text and text.startswith('behind the shock')) or \
+            text.startswith("ahead of the shock: 'specific_internal_energy'")
+    n = sum(1 for sm in tmp.samples if mine(str(sm.get('identity', ''))) or 'pre-shock \'specific_internal_energy\'' in str(sm.get('identity', '')))
+    bad = [f for f in tmp.findings if mine(f.detail)]
+    total = n + len(bad)
+    if total < 2 and not bad:
+        raise AnalysisError('black-box Noh: the EOS obligations of the returned-states rule vanished (confirmed: 2 per scenario)')
+    res.obligations += total
+    res.evaluations += total
+    res.nontrivial += total
+    res.discharged += n
+    for f in bad:
+        res.add(f)
+    res.sample({'rule': 'C03.blackbox-eos', 'site': 'NohBlackBoxEos._run', 'obligations': total,
+                'identity': "behind the shock the closed field is eos.P/eos.e(shocked density, shocked unknown); ahead e = eos.e(rho_0, P_0)"}, limit=60)
